@@ -1,5 +1,7 @@
 import Driver.Proto
 import SpsdkVerif.Model.Registers
+import SpsdkVerif.Model.RegistersP3
+import SpsdkVerif.Generated.RegProc
 open SpsdkVerif Driver
 open SpsdkVerif.Regs
 
@@ -8,6 +10,8 @@ structure St where
   little : Bool := false
   md : Meta := []          -- hidden bit-fields, shared enum names, alternative widths (config_model / alt streams)
   saved : RegFile := []    -- `mark` / `restore`: the freshly loaded object
+  names : List RegName := []   -- phase 3: look-up table (`names`)
+  offs : List Nat := []        -- phase 3: byte offsets of the registers (`offs`)
 
 def parseCsvNat (s : String) : List Nat :=
   if s == "-" then [] else (s.splitOn ",").filterMap (·.toNat?)
@@ -89,6 +93,33 @@ def initReg (r : Reg) : Reg :=
       (cur, done ++ [{ f with reset := rv }])) (r0, [])
   { r1 with fields := fs }
 
+
+/-! phase 3: look-up table `names <reg>;<reg>…`; a register is four '/'-separated parts: name, uid, aliases (csv or a dash),
+    group members (`<name>.<uid>` joined by '+', or a dash) -/
+def parseRegName (s : String) : Option RegName :=
+  match s.splitOn "/" with
+  | [n, u, al, subs] =>
+    match n.toNat?, u.toNat? with
+    | some n, some u =>
+      let ss := if subs == "-" then [] else (subs.splitOn "+").filterMap (fun x => match x.splitOn "." with
+        | [a, b] => (match a.toNat?, b.toNat? with | some a, some b => some (a, ([] : List Nat), b) | _, _ => none)
+        | _ => none)
+      some { name := n, uid := u, aliases := parseCsvNat al, subs := ss }
+    | _, _ => none
+  | _ => none
+
+def refOptStr : Option RegRef → String
+  | some r => refStr r
+  | none => "none"
+
+/-- the dispatch table of `from_spec`, taken from the generated processor table -/
+def procTable : List (String × List String) :=
+  (SpsdkVerif.Generated.RegProc.procs.filter (fun p => SpsdkVerif.Generated.RegProc.dispatch.contains p.name)).map (fun p => (p.name, p.keys))
+
+def procStr : Option (String × List Nat) → String
+  | none => "none"
+  | some (n, vs) => n ++ ":" ++ ",".intercalate (vs.map toString)
+
 def applyRes (st : St) (res : PyRes RegFile) : St × String :=
   match res with
   | .ok rf' => ({ st with rf := rf' }, "ok " ++ dump { st with rf := rf' })
@@ -155,6 +186,35 @@ def stepLine (st : St) : List String → St × String
   | ["reset_all"] => applyOp st .resetAll
   | ["parse", h] => match parseHex h with | some b => applyOp st (.parse b st.little) | none => (st, "bad-op")
   | ["export"] => (st, resLine toHex (exportRegs st.rf st.little))
+  -- phase 3
+  | ["get_config_diff"] => (st, resLine cfgStr (getConfigD true st.md st.rf))
+  | ["proc_spec", h] => match parseHex h with
+    | some b => (st, resLine procStr (procFromSpec procTable (b.map (fun x => Char.ofNat x.toNat))))
+    | none => (st, "bad-op")
+  | ["names", t] =>
+    let parsed := (t.splitOn ";").map parseRegName
+    if parsed.all Option.isSome then ({ st with names := parsed.filterMap id }, "ok") else (st, "bad-op")
+  | ["find", x, incl] => match parseNat x, parseBool incl with
+    | some x, some incl => (st, "ok:" ++ refOptStr (findReg st.names x incl))
+    | _, _ => (st, "bad-op")
+  | ["get_uid", x] => match parseNat x with
+    | some x => (st, "ok:" ++ refOptStr (getRegByUid st.names x))
+    | none => (st, "bad-op")
+  | ["find_bf", t, x] => match parseNat x with
+    | some x =>
+      let fs := (if t == "-" then [] else t.splitOn ",").filterMap (fun e => match e.splitOn "." with
+        | [a, b] => (match a.toNat?, b.toNat? with | some a, some b => some (a, b) | _, _ => none)
+        | _ => none)
+      (st, "ok:" ++ (match findBitfield fs x with | some j => toString j | none => "none"))
+    | none => (st, "bad-op")
+  | ["offs", t] => ({ st with offs := parseCsvNat t }, "ok")
+  | ["image_len"] => (st, "ok:" ++ toString (imageLen st.offs st.rf))
+  | ["export_at", f] => match parseNat f with
+    | some f => (st, resLine toHex (exportAt st.offs st.rf st.little (UInt8.ofNat f)))
+    | none => (st, "bad-op")
+  | ["parse_at", h] => match parseHex h with
+    | some b => applyRes st (parseAt st.offs st.rf b st.little)
+    | none => (st, "bad-op")
   | ["dump"] => (st, "ok " ++ dump st)
   | _ => (st, "bad-op")
 
